@@ -25,3 +25,7 @@ claim("C17", "exhaustive enumeration of slot-creation sequences, each in a fresh
       "Every sequence of <=4 (quick) / <=5 (thorough) operations over fresh / numeric / 19 textual names (incl. f<n> forms, non-canonical numerals, empty and non-ASCII names) / parse-print / e-graph insertion is executed in a fresh thread; fresh must be new, names injective and stable, print-parse round-trips, class parameter slots new.",
       "Numeric names >= 2^30 and overflowing f<n> names are outside the quantifier.",
       "DESIGN.md 5 C17")
+claim("C16", "exhaustive enumeration of node variants x slot assignments of a derived zoo language against an independent scoping-aware canonicaliser",
+      "Every variant template of a define_language! zoo (plain slots, Bind, nested Bind, Bind before/after a free child, Bind<Slot>, slot next to binder, payloads, nullary) x every assignment of slot positions from a 3 (thorough 4) name pool (repeated and shadowing names) x three name->slot schemes; per node: occurrence lists by position, public/private partition, slots(), syntax round trip, weak_shape equivalence/bijection/apply/idempotence; all pairs per template: shapes equal iff renaming-equivalent.",
+      "Children carry bijective maps; judged through the in-tree derive macro (the harness patches slotted-egraphs-derive to /repo/slotted-egraphs-derive).",
+      "DESIGN.md 5 C16")
